@@ -260,13 +260,7 @@ impl<R: Reader> ArangeEntryIter<R> {
                 None => return Ok(None),
             };
 
-            let entry = match self.convert_raw(raw_entry) {
-                Ok(entry) => entry,
-                Err(e) => {
-                    self.input.empty();
-                    return Err(e);
-                }
-            };
+            let entry = self.convert_raw(raw_entry)?;
             if entry.is_some() {
                 return Ok(entry);
             }
